@@ -60,6 +60,44 @@ func (v *rv) print(b []byte) []byte {
 	}
 }
 
+// bulkBytes sums the payload bytes of all non-nil bulk strings in the tree.
+func (v *rv) bulkBytes() int {
+	n := 0
+	if v.kind == '$' && !v.isNil {
+		n = len(v.text) + 3
+	}
+	for _, it := range v.items {
+		n += it.bulkBytes()
+	}
+	return n
+}
+
+// toRespArena is toResp with every bulk payload laid out in one shared backing array (each followed by three guard
+// bytes), the way arguments cut out of one input line share their buffer: the slices have spare capacity that belongs
+// to their neighbours.
+func (v *rv) toRespArena(arena *[]byte) redis.Resp {
+	switch v.kind {
+	case '$':
+		if v.isNil {
+			return &redis.BulkBytes{Value: nil}
+		}
+		off := len(*arena)
+		*arena = append(*arena, v.text...)
+		*arena = append(*arena, 0xAA, 0xAA, 0xAA)
+		return &redis.BulkBytes{Value: (*arena)[off : off+len(v.text)]}
+	case '*':
+		if v.isNil {
+			return &redis.Array{Value: nil}
+		}
+		a := &redis.Array{Value: []redis.Resp{}}
+		for _, it := range v.items {
+			a.Value = append(a.Value, it.toRespArena(arena))
+		}
+		return a
+	}
+	return v.toResp()
+}
+
 func (v *rv) toResp() redis.Resp {
 	switch v.kind {
 	case '+':
@@ -245,11 +283,24 @@ func runC10(c *core.Ctx) *core.Violation {
 		}
 		var out bytes.Buffer
 		w := bufio.NewWriterSize(&out, []int{16, 4096, 1}[t.Choose(3)])
-		if err := redis.Encode(w, e.v.toResp(), true); err != nil {
+		resp := e.v.toResp()
+		var arena, before []byte
+		if t.Choose(2) == 1 {
+			arena = make([]byte, 0, e.v.bulkBytes())
+			resp = e.v.toRespArena(&arena)
+			before = append([]byte(nil), arena...)
+		}
+		if err := redis.Encode(w, resp, true); err != nil {
 			return core.Violate("encode-error", string(e.v.kind), "Encode failed for %s: %v", e.v.describe(), err)
 		}
 		if !bytes.Equal(out.Bytes(), e.raw) {
 			return core.Violate("encode-bytes", string(e.v.kind), "Encode produced %q, RESP says %q", clipS(out.Bytes()), clipS(e.raw))
+		}
+		if !bytes.Equal(arena[:len(before)], before) {
+			return core.Violate("encode-mutates-input", string(e.v.kind), "Encode changed the caller's memory: the buffer its bulk arguments are slices of was %q and is now %q", clipS(before), clipS(arena[:len(before)]))
+		}
+		if len(before) > 0 {
+			c.Probe("bulk_args_share_a_buffer")
 		}
 	}
 
@@ -556,7 +607,7 @@ func init() {
 			"in corrupted streams a bare LF in front of a nested element is skipped, as the tool's type reader does at every depth",
 		},
 		RealVsStub: "real: pkg/redis encoder, decoder, ParseArgs, bufio; simulated: input stream (fragmentation, truncation, substitution), scheduling, process exit",
-		ProbeNames: []string{"inline_command", "keepalive_newline", "rejected_incomplete", "rejected_bad-crlf", "rejected_bad-len", "rejected_bad-type", "rejected_bad-int"},
+		ProbeNames: []string{"bulk_args_share_a_buffer", "inline_command", "keepalive_newline", "rejected_incomplete", "rejected_bad-crlf", "rejected_bad-len", "rejected_bad-type", "rejected_bad-int"},
 		FaultNames: []string{"stream_truncated", "byte_substituted"},
 	})
 }
